@@ -376,6 +376,33 @@ def run(ctx):
             res = type(e)
         if res != want:
             ctx.violation({"template": src, "result": repr(res), "expected": repr(want)}, "loop over an unsized iterable / outside a loop / parent", tags=["c03.loop.special"])
+    # every for-header Python accepts must work when the body reads loop (mangle_mako_loop rewrites the header through a regular expression)
+    class _O:
+        pass
+    HEADERS = [("a, b", [(1, 2)], "plain"), ("(a, b)", [(1, 2)], "plain"), ("a, (b, c)", [(1, (2, 3))], "plain"), ("((a, b), c)", [((1, 2), 3)], "plain"), ("a, b,", [(1, 2)], "plain"),
+               ("a ,b", [(1, 2)], "plain"), ("*a, b", [(1, 2, 3)], "starred"), ("a, *b", [(1, 2, 3)], "starred"), ("o.x", [1], "attribute"), ("d['k']", [1], "subscript"),
+               ("[a, b]", [(1, 2)], "list")]
+    for tgt, data, kind in HEADERS:
+        for tail, tk in [("", ""), ("  ", ""), (" # note: here", ".comment-with-colon"), (" # plain note", "")]:
+            ctx.evaluations += 1
+            src = "%% for %s in data:%s\n${loop.index}${loop.last}|\n%% endfor\n" % (tgt, tail)
+            try:
+                res = Template(src).render(data=data, o=_O(), d={})
+            except Exception as e:  # noqa
+                res = "raised %s: %s" % (type(e).__name__, str(e)[:80])
+            if res != "0True|\n":
+                ctx.violation({"template": src, "result": res, "expected": "0True|\n"}, "a for-header that Python accepts fails when the body reads loop",
+                              tags=["c03.loop.header." + kind + tk if (kind != "plain" or tk) else "c03.loop.header"])
+    # the iterable expression may contain colons, brackets and the word in
+    for it, n in [("{1: 2}", 1), ("[x for x in data]", 1), ("data if data else []", 1), ("(y for y in data if y in data)", 1), ("data[0:1]", 1), ("dict(a=1).items()", 1), ("lambda_in(data)", 1)]:
+        ctx.evaluations += 1
+        src = "%% for q in %s:\n${loop.index}\n%% endfor\n" % it
+        try:
+            res = Template(src).render(data=[7], lambda_in=lambda v: v)
+        except Exception as e:  # noqa
+            res = "raised %s: %s" % (type(e).__name__, str(e)[:80])
+        if res != "0\n" * n:
+            ctx.violation({"template": src, "result": res}, "the iterable of a % for that reads loop is not evaluated as written", tags=["c03.loop.iterable"])
     # enable_loop off: loop is an ordinary name, unless re-enabled by <%page>
     for src, kw, ctxv, want in [("% for x in [1]:\n${loop}\n% endfor\n", {"enable_loop": False}, {"loop": "L"}, "L\n"),
                                 ('<%page enable_loop="True"/>\n% for x in [1,2]:\n${loop.index}\n% endfor\n', {"enable_loop": False}, {}, "\n0\n1\n"),
